@@ -133,8 +133,8 @@ func runSock(pl SockPlan) (res vfx.Result) {
 	type item struct {
 		s    SockSend
 		pay  []byte
-		sent int  // sends that returned nil
-		unk  int  // sends that returned an error (may or may not have gone out)
+		sent int // sends that returned nil
+		unk  int // sends that returned an error (may or may not have gone out)
 	}
 	items := make([]*item, len(pl.Sends))
 	for i, s := range pl.Sends {
